@@ -9,7 +9,7 @@
                                  (cairo-lang-sierra-to-casm invocations/enm.rs get_variant_selector)
      snapshot                  : as the value
      arrays                    : not comparable (pointers) -- the generator never returns them. *)
-From C01 Require Export Ref.
+From C01 Require Export Ref Typing.
 
 Fixpoint tsize (t : ty) : Z :=
   match t with
@@ -94,8 +94,15 @@ Record case := {
 Definition ret_ty (p : prog) (f : nat) : ty :=
   match nth_error p f with Some fd => fret fd | None => TUnit end.
 
+(* a case is good when the program is well typed for Typing.wt_prog (so that the theorems about
+   the reference semantics apply to it) and the reference outcome equals the observed one *)
 Definition check_case (c : case) : bool :=
-  agrees (ret_ty (c_prog c) (c_fn c)) (eval_fn (c_prog c) (c_fn c) (c_args c) FUEL) (c_obs c).
+  wt_prog (c_prog c)
+  && agrees (ret_ty (c_prog c) (c_fn c)) (eval_fn (c_prog c) (c_fn c) (c_args c) FUEL) (c_obs c).
+
+(* ids of the cases whose program the type checker of the reference language rejects *)
+Definition illtyped (cs : list case) : list Z :=
+  flat_map (fun c => if wt_prog (c_prog c) then [] else [c_id c]) cs.
 
 (* the ids of the disagreeing cases, with what the model computed *)
 Definition check_run (cs : list case) : list (Z * outcome) :=
